@@ -139,6 +139,11 @@ theorem single_import_is_one_line {inp : List Rune} (hg : Good inp) (l : L) (h :
     ∀ t ∈ (lexImportStart l).1.out, t.typ = .import → countNl t.lit = 0 :=
   importStart_token_one_line hg l h ho (by decide)
 
+/-- … and the name in the package clause -/
+theorem package_name_is_one_line {inp : List Rune} (hg : Good inp) (l : L) (h : SInv inp l) (ho : l.out = []) :
+    ∀ t ∈ (lexPackage l).1.out, t.typ = .package → countNl t.lit = 0 :=
+  package_token_one_line hg l h ho (by decide)
+
 /-- **`@goht` is the keyword only when a blank follows it** — the lexer enters a template declaration exactly
 when that word is `@goht` and the next character is a blank; every other line that starts with `@` is Go code. -/
 theorem template_keyword_needs_blank (l : L) :
